@@ -23,6 +23,7 @@ file-backed value leaves that file behind (sig abort_orphan_file).  Everything e
 """
 import os
 import shutil
+import tempfile
 import time as _time
 
 import concdrv
@@ -48,8 +49,8 @@ ASSUMPTIONS = [
 ]
 
 SETTINGS = {'disk_min_file_size': 8}
+EXPECTED_SIGS = ('abort_lost_file', 'abort_lost_file_pop', 'abort_orphan_file', 'iter_not_atomic', 'uncommitted_removal_visible', 'fanout_commit_not_atomic')
 TRACE_RECORDS = []
-EXPECTED_SIGS = ('abort_lost_file', 'abort_lost_file_pop', 'abort_orphan_file', 'iter_not_atomic', 'uncommitted_removal_visible')
 OK_EXC = ('Timeout', 'KeyError', 'TypeError', 'IndexError', 'ValueError')
 WRITE_SQL = ('sql:INSERT', 'sql:UPDATE', 'sql:DELETE', 'sql:UPDATE-SETTINGS', 'sql:COMMIT', 'sql:ROLLBACK')
 RELEASING = ('set', 'setitem', 'add', 'delete', 'delitem', 'incr', 'decr', 'pop', 'pull', 'popleft', 'popitem', 'clear',
@@ -73,6 +74,10 @@ def block_spans(recs):
             while j < len(recs):
                 q = recs[j]
                 if q.get('skipped'):
+                    j += 1
+                    continue
+                if q['op'] == 'raise_in_block' and q.get('result') == 'raised-and-caught':
+                    inner.append(q)         # left an inner block only and was caught inside the enclosing one
                     j += 1
                     continue
                 if q['op'] == 'raise_in_block':
@@ -101,6 +106,10 @@ def actions_with_blocks(calls):
                 in_block.add(closing['index'])
             steps = [(q['call'], observed_of(q)) for q in inner if q['op'] not in concdrv.BLOCK_OPS]
             lasts = [q['last'] for q in [b] + inner + ([closing] if closing else []) if q.get('last') is not None]
+            firsts = [q['first'] for q in [b] + inner + ([closing] if closing else []) if q.get('first') is not None]
+            if not lasts:
+                continue            # a block that executed nothing at all (reported by the nesting checks)
+            b = dict(b, first=min(firsts))      # (entering the block normally executes BEGIN; if it did not, the block starts at its first event)
             acts.append(Action('%d.%d' % (b['client'], b['index']), b['client'], b['first'], max(lasts), steps, abort=abort,
                                label='block%s[%s]' % ('!' if abort else '', ','.join(c['op'] for c, _ in steps))))
         for r in recs:
@@ -108,6 +117,46 @@ def actions_with_blocks(calls):
                 continue
             acts.append(Action('%d.%d' % (r['client'], r['index']), r['client'], r['first'], r['last'], [(r['call'], observed_of(r))]))
     return acts
+
+
+_DISK = []
+
+
+def shard_of(key, shards):
+    if not _DISK:
+        _DISK.append(instr.core.Disk(tempfile.gettempdir()))
+    return _DISK[0].hash(key) % shards
+
+
+def fanout_split_explains(calls, init, fin, shards):
+    """Is the run explained when every COMMITTED block is one atomic action PER SHARD (all with the block's time span) and
+    reads that visit several shards (len, iteration) are left unconstrained?"""
+    acts = []
+    for recs in calls:
+        in_block = set()
+        for b, inner, closing, abort in block_spans(recs):
+            in_block.add(b['index'])
+            in_block.update(q['index'] for q in inner)
+            if closing is not None:
+                in_block.add(closing['index'])
+            lasts = [q['last'] for q in [b] + inner + ([closing] if closing else []) if q.get('last') is not None]
+            firsts = [q['first'] for q in [b] + inner + ([closing] if closing else []) if q.get('first') is not None]
+            if not lasts:
+                continue
+            b = dict(b, first=min(firsts))
+            body = [q for q in inner if q['op'] not in concdrv.BLOCK_OPS]
+            if abort or any('key' not in q['call'] for q in body):
+                acts.append(Action('%d.%d' % (b['client'], b['index']), b['client'], b['first'], max(lasts), [(q['call'], observed_of(q)) for q in body], abort=abort))
+                continue
+            for sh in range(shards):
+                steps = [(q['call'], observed_of(q)) for q in body if shard_of(q['call']['key'], shards) == sh]
+                if steps:
+                    acts.append(Action('%d.%d.s%d' % (b['client'], b['index'], sh), b['client'], b['first'], max(lasts), steps))
+        for r_ in recs:
+            if r_['index'] in in_block or r_.get('skipped') or r_.get('pending') or r_['op'] in concdrv.BLOCK_OPS or r_.get('first') is None:
+                continue
+            acts.append(Action('%d.%d' % (r_['client'], r_['index']), r_['client'], r_['first'], r_['last'], [(r_['call'], observed_of(r_))]))
+    return linearize(acts, init, fin, tolerate=True, wild=('len', 'iter', 'reversed')) is not None
 
 
 # ---------------------------------------------------------------------------
@@ -180,7 +229,7 @@ def check_run(r, case, stats):
                 out.append(('inner_block_statement', 'an inner block %s executed statements %r' % (q['op'], q['events'])))
         # (ii)/(iv) isolation in the log: nobody else writes between BEGIN and COMMIT/ROLLBACK
         if kind != 'fanout' and closing is not None and closing.get('last') is not None:
-            lo = b['last']
+            lo = b['last'] if b.get('last') is not None else (closing['first'] or 0)
             hi = max(s for s in range(closing['first'], closing['last'] + 1) if log[s][0] == 0 and log[s][1] in ('sql:COMMIT', 'sql:ROLLBACK')) \
                 if any(log[s][0] == 0 and log[s][1] in ('sql:COMMIT', 'sql:ROLLBACK') for s in range(closing['first'], closing['last'] + 1)) else closing['last']
             for s in range(lo + 1, hi):
@@ -228,12 +277,14 @@ def check_run(r, case, stats):
         for b, inner, closing, abort in spans:
             if closing is None or not any(q['op'] in RELEASING for q in inner):
                 continue
-            lo, hi = b['last'], closing['last'] if closing.get('last') is not None else len(log)
+            lo, hi = b['last'] if b.get('last') is not None else 0, closing['last'] if closing.get('last') is not None else len(log)
             for recs in r['calls'][1:]:
                 for rec in recs:
                     if rec.get('first') is not None and rec['first'] <= hi and rec['last'] >= lo and failed_open(rec.get('events', [])):
                         early.add(id(rec['call']))
-        if linearize(acts, init, None, tolerate=True) is not None:
+        if kind == 'fanout' and fanout_split_explains(r['calls'], init, fin, shards):
+            sig = 'fanout_commit_not_atomic'
+        elif linearize(acts, init, None, tolerate=True) is not None:
             sig = 'final_contents_unexplained'
         elif early and linearize(acts, init, fin, tolerate=True, wild=lambda c: id(c) in early) is not None:
             sig = 'uncommitted_removal_visible'
@@ -241,7 +292,11 @@ def check_run(r, case, stats):
                 linearize([a for a in acts], init, fin, tolerate=True,
                           wild=lambda c: c['op'] in multi and not any(c is cc for b, inner, _, _ in spans for cc in [q['call'] for q in inner])) is not None:
             sig = 'iter_not_atomic'
-        if sig == 'uncommitted_removal_visible':
+        if sig == 'fanout_commit_not_atomic':
+            out.append((sig, 'FanoutCache.transact commits its shards one after the other: a reader between two of the COMMITs sees the block applied '
+                        'on one shard and not yet on another (explained once the block is split into one atomic action per shard); results: %s'
+                        % '; '.join('c%s %s -> %s' % (a.aid, a.label, [o[1] for _, o in a.steps]) for a in acts)))
+        elif sig == 'uncommitted_removal_visible':
             out.append((sig, 'a reader overlapping an open block found the value file of an item already removed by a call inside the block '
                         '(the file is unlinked when the inner call returns, before the block commits): it saw a state that is neither before '
                         'nor after the block; results: %s' % '; '.join('c%s %s -> %s' % (a.aid, a.label, [o[1] for _, o in a.steps]) for a in acts)))
@@ -443,7 +498,8 @@ def gen_block(rng, kind, keys):
             depth += 1
         prog.append(c)
         if raise_after == i:
-            prog.append({'op': 'raise_in_block', 'base': True} if rng.random() < 0.3 else {'op': 'raise_in_block'})
+            prog.append({'op': 'raise_in_block', 'base': True} if rng.random() < 0.3 else
+                        ({'op': 'raise_in_block', 'caught': True} if depth >= 2 and rng.random() < 0.5 else {'op': 'raise_in_block'}))
         if depth > 1 and rng.random() < 0.4:
             prog.append({'op': 'end_block'})
             depth -= 1
@@ -498,6 +554,20 @@ def gen_case(rng, kind):
 BIG, BIG2 = 'BIG' + 'x' * 20, 'BIG2' + 'y' * 20
 
 
+def fanout_witness():
+    """keys k0 / k1 living in shard 0 / shard 1 of a 2-shard FanoutCache; the block sets both; the reader looks k1 up, then k0, right
+    after the block's FIRST COMMIT (ExitStack leaves the shard transactions in reverse order: shard 1 commits first)."""
+    ks = {}
+    for k in 'abcdefgh':
+        ks.setdefault(shard_of(k, 2), k)
+    k0, k1 = ks[0], ks[1]
+    return {'check': 'block', 'kind': 'fanout', 'mode': 'own', 'setup': [{'op': 'set', 'key': k0, 'value': 'old0'}, {'op': 'set', 'key': k1, 'value': 'old1'}],
+            'flavour': 'commit', 'shards': 2, 'until_first': 'sql:COMMIT',
+            'programs': [[{'op': 'begin_block'}, {'op': 'set', 'key': k0, 'value': 'new0', 'retry': True}, {'op': 'set', 'key': k1, 'value': 'new1', 'retry': True},
+                          {'op': 'end_block'}], [{'op': 'get', 'key': k1}, {'op': 'get', 'key': k0}]],
+            'schedule': None}
+
+
 def witnesses():
     """Minimal witnesses of D8, replayed every run: (sig, case)."""
     def solo(kind, setup, body, readback_):
@@ -516,6 +586,8 @@ def witnesses():
          {'check': 'block', 'kind': 'deque', 'mode': 'own', 'setup': [{'op': 'append', 'value': BIG}], 'flavour': 'commit', 'shards': 2,
           'programs': [[{'op': 'begin_block'}, {'op': 'popleft'}, {'op': 'append', 'value': 'new'}, {'op': 'end_block'}], [{'op': 'iter'}, {'op': 'len'}]],
           'schedule': [0] * 7 + [1] * 12 + [0] * 20}),
+        # a COMMITTED FanoutCache block over two shards: the reader runs between the COMMITs of the two shards
+        ('fanout_commit_not_atomic', fanout_witness()),
         # a COMMITTED Cache block {delete a; set c}: the reader's iteration reads MAX(rowid) before and its page after the COMMIT
         ('iter_not_atomic',
          {'check': 'block', 'kind': 'cache', 'mode': 'own', 'setup': [{'op': 'set', 'key': 'a', 'value': 1}, {'op': 'set', 'key': 'b', 'value': 2}],
@@ -553,6 +625,19 @@ def corpus():
                        {'op': 'raise_in_block', 'base': True}, {'op': 'end_block'}, {'op': 'set', 'key': 'd', 'value': 4, 'retry': False}]
                       + readback('cache', ['a', 'c', 'd']), [{'op': 'set', 'key': 'e', 'value': 5, 'retry': False}, {'op': 'get', 'key': 'a'}, {'op': 'get', 'key': 'd'}]],
          'schedule': [0] * 60 + [1] * 20, 'flavour': 'abort_then_work', 'shards': 2},
+        # an exception leaves a NESTED block and is caught inside the enclosing one (which then commits everything); a later block
+        # of the same thread raises and must be rolled back as a whole
+        {'check': 'block', 'kind': 'cache', 'mode': 'own', 'setup': [{'op': 'set', 'key': 'a', 'value': 1}],
+         'programs': [[{'op': 'begin_block'}, {'op': 'set', 'key': 'a', 'value': 2, 'retry': t}, {'op': 'begin_block'}, {'op': 'incr', 'key': 'c', 'retry': t},
+                       {'op': 'raise_in_block', 'caught': True}, {'op': 'end_block'}, {'op': 'set', 'key': 'b', 'value': 2, 'retry': t}, {'op': 'end_block'},
+                       {'op': 'begin_block'}, {'op': 'set', 'key': 'd', 'value': 4, 'retry': t}, {'op': 'delete', 'key': 'a', 'retry': t}, {'op': 'raise_in_block'},
+                       {'op': 'end_block'}] + readback('cache', ['a', 'b', 'c', 'd']), [{'op': 'get', 'key': 'd'}, {'op': 'get', 'key': 'a'}]],
+         'schedule': [0] * 80 + [1] * 20, 'flavour': 'abort_then_work', 'shards': 2},
+        {'check': 'block', 'kind': 'index', 'mode': 'own', 'setup': [{'op': 'setitem', 'key': 'a', 'value': 1}],
+         'programs': [[{'op': 'begin_block'}, {'op': 'begin_block'}, {'op': 'setitem', 'key': 'c', 'value': 3}, {'op': 'raise_in_block', 'caught': True},
+                       {'op': 'end_block'}, {'op': 'end_block'},
+                       {'op': 'begin_block'}, {'op': 'setitem', 'key': 'd', 'value': 4}, {'op': 'raise_in_block'}, {'op': 'end_block'}] + readback('index', ['a', 'c', 'd'])],
+         'schedule': [], 'flavour': 'abort_then_work', 'shards': 2},
     ]
 
 
@@ -572,6 +657,19 @@ def handover_cases(ctx):
                 for k in range(0, 3):
                     out.append({'check': 'block', 'kind': 'cache', 'mode': 'shared', 'setup': [], 'programs': programs, 'flavour': 'handover', 'shards': 2,
                                 'schedule': [1] * i + [0] * j + [1] * k + [0] * 3 + [1] * 40 + [0] * 120})
+    # two threads sharing ONE object, BOTH with a block of their own (the second one raises): the second block must wait for the
+    # first (a transaction belongs to the thread that opened it), and its abort must undo all of its writes
+    for kind, k1, k2, k3 in (('fanout', 'a', 'b', 'c'), ('cache', 'a', 'b', 'c'), ('index', 'a', 'b', 'c')):
+        wr = (lambda k, v: {'op': 'setitem', 'key': k, 'value': v}) if kind == 'index' else (lambda k, v: {'op': 'set', 'key': k, 'value': v, 'retry': t})
+        # (each client starts with a lookup: a client is parked at its first EVENT, so without it the second client would already be
+        #  past the Python-level entry of its block before the first client has executed anything)
+        programs = [[{'op': 'contains', 'key': k1}, {'op': 'begin_block'}, wr(k1, 1), wr(k2, 2), {'op': 'end_block'}] + readback(kind, [k1, k2, k3]),
+                    [{'op': 'contains', 'key': k3}, {'op': 'begin_block'}, wr(k3, 3), wr(k1, 9), {'op': 'raise_in_block'}, {'op': 'end_block'}] + readback(kind, [k1, k3])]
+        seqs = concdrv.solo_events(ctx, programs, settings=SETTINGS, setup=[], kind=kind, mode='shared')
+        for i in range(0, len(seqs[0]) + 1, 2):
+            for j in (1, 3, 6, 12):
+                out.append({'check': 'block', 'kind': kind, 'mode': 'shared', 'setup': [], 'programs': programs, 'flavour': 'two_blocks', 'shards': 2,
+                            'schedule': [0] * i + [1] * j + [0] * 400 + [1] * 400})
     return out
 
 
@@ -587,6 +685,11 @@ def new_stats():
 
 def run_case(ctx, res, stats, case, label, record=True):
     kind, mode = case['kind'], case['mode']
+    if case.get('schedule') is None and case.get('until_first'):
+        # client 0 runs up to and including its first event of the given kind, then client 1 runs to its end, then client 0
+        seqs = concdrv.solo_events(ctx, case['programs'], settings=SETTINGS, setup=case['setup'], kind=kind, mode=mode, shards=case.get('shards', 2))
+        i = seqs[0].index(case['until_first']) + 1 if case['until_first'] in seqs[0] else len(seqs[0])
+        case = dict(case, schedule=[0] * i + [1] * 200 + [0] * 400)
     d = concdrv.scratch(ctx, 'c06')
     clock = instr.Clock(c05.NOW)
     before = None
@@ -697,7 +800,7 @@ def correspondence(ctx, res, trace_records):
                     continue
                 if block is not None:
                     block['events'] += c['events']
-                    if op in ('end_block', 'raise_in_block') and c.get('depth', 0) == 0:
+                    if (op == 'end_block' and c.get('depth', 0) == 0) or (op == 'raise_in_block' and c.get('result') == 'raised'):
                         tags = tracecorr.tags_from_shorts(block['events'])
                         traces.append(((ri, c.get('client'), block['first'].get('index'), 'block', block['events']), tags, True))
                         block = None
